@@ -111,7 +111,8 @@ func stringGetOwnProperty(obj *object, name string) *property {
 	// TODO Test a string of length >= +int32 + 1?
 	if index := stringToArrayIndex(name); index >= 0 {
 		if chr := stringAt(obj.stringValue(), int(index)); chr != stringAtNone {
-			return &property{stringValue(string(chr)), 0}
+			// 15.5.5.2: { [[Writable]]: false, [[Enumerable]]: true, [[Configurable]]: false }
+			return &property{stringValue(string(chr)), 0o010}
 		}
 	}
 	return nil
